@@ -10,6 +10,7 @@ import (
 
 	"github.com/tokenized/pkg/bitcoin"
 	"github.com/tokenized/pkg/wire"
+	"github.com/tokenized/spynode/internal/handlers"
 	"github.com/tokenized/spynode/internal/platform/config"
 	"github.com/tokenized/spynode/pkg/client"
 )
@@ -171,4 +172,30 @@ func vkNewNode(ctx context.Context, store *vkStore) (*vkNode, error) {
 	node.SubscribePushDatas(ctx, [][]byte{vkSubscribed()})
 	node.state.SetStartHeight(0)
 	return &vkNode{node: node, rec: rec, store: store, fetcher: f}, nil
+}
+
+// vkUntrusted builds an untrusted peer connection of the node the way
+// UntrustedNode.Run wires it (NewUntrustedNode + NewUntrustedMessageHandlers),
+// without the network part.
+func vkUntrusted(ctx context.Context, k *vkNode, address string, verified bool) *UntrustedNode {
+	n := k.node
+	u := NewUntrustedNode(address, n.config, n.state, n.store, n.peers, n.blocks, n.txs, n.memPool,
+		&n.unconfTxChannel, n.handlers, n, false)
+	u.messageHandlers = handlers.NewUntrustedMessageHandlers(ctx, u.trustedState, u.untrustedState,
+		u.peers, u.blocks, u.txTracker, u.memPool, u.txChannel, u.isRelevant, u.address)
+	if verified {
+		u.untrustedState.SetVerified()
+	}
+	return u
+}
+
+// vkDrainTxs runs the body of processUnconfirmedTxs for everything queued.
+func vkDrainTxs(ctx context.Context, k *vkNode) error {
+	for len(k.node.unconfTxChannel.Channel) > 0 {
+		tx := <-k.node.unconfTxChannel.Channel
+		if err := k.node.processUnconfirmedTx(ctx, tx); err != nil {
+			return err
+		}
+	}
+	return nil
 }
